@@ -857,6 +857,100 @@ fn main() {
         cx.rep.bump_by(&format!("filtered_outside_model={}", k), *v);
     }
 
+    // 3b. constant-pool family: the same programs behind a prelude that fills the chunk's constant
+    //     pool, so that their literals / non-local identifiers get constant indices around the
+    //     varint boundaries of the instruction encoding (2^7, 2^14; 2^21 in the thorough tier)
+    {
+        fn pool_constants(p: &Expr) -> usize {
+            let mut n = 0;
+            p.walk(&mut |e| match e {
+                Expr::Lit(Lit::Float(_)) | Expr::Lit(Lit::Str(_)) | Expr::Emit(_) | Expr::Print(_) | Expr::Size(_) | Expr::Interp(_) => n += 1,
+                Expr::Lit(Lit::Int(i)) if *i > 32767 || *i < -32768 => n += 1,
+                _ => {}
+            });
+            n
+        }
+        // a hand-built "constant table" program: every kind of constant and non-local identifier
+        let table = Expr::Block(vec![
+            Expr::Emit(b(int(100001))),
+            Expr::Emit(b(int(-70000))),
+            Expr::Emit(b(Expr::Lit(Lit::Float(2.5)))),
+            Expr::Emit(b(Expr::Lit(Lit::Str("abc".into())))),
+            Expr::Emit(b(Expr::Size(b(Expr::Lit(Lit::Str("hello".into())))))),
+            Expr::Print(b(Expr::Lit(Lit::Str("x y".into())))),
+            Expr::Assign(0, b(int(123456))),
+            Expr::Emit(b(Expr::Arith(ArithOp::Add, b(Expr::Var(0)), b(int(654321))))),
+            Expr::Emit(b(Expr::Interp(vec![Expr::Var(0), Expr::Lit(Lit::Str("!".into()))]))),
+            Expr::Assign(1, b(Expr::List(vec![Expr::Lit(Lit::Float(1.5)), Expr::Lit(Lit::Str("q".into())), int(99999)]))),
+            Expr::Emit(b(Expr::Index(b(Expr::Var(1)), b(int(2))))),
+            Expr::Arith(ArithOp::Add, b(int(300000)), b(Expr::Lit(Lit::Float(0.5)))),
+        ]);
+        let mut crng = rng.fork();
+        let mut jobs: Vec<(Expr, Vec<Context>, u64)> = vec![];
+        // the table program at every pool size of the two boundary windows
+        let mut table_ctx: Vec<Context> = (120..=135).map(|n| Context::ConstPool(n, n % 2 == 0)).collect();
+        if thorough {
+            table_ctx.extend((16370..=16400).map(|n| Context::ConstPool(n, n % 2 == 1)));
+        } else {
+            for _ in 0..3 {
+                table_ctx.push(Context::ConstPool(16370 + crng.below(14), crng.chance(1, 2)));
+            }
+            table_ctx.push(Context::ConstPool(16384 + crng.below(17), crng.chance(1, 2)));
+        }
+        if thorough {
+            for k in 0..3 {
+                table_ctx.push(Context::ConstPool(2_097_140 + 6 * k, k == 1));
+            }
+        }
+        jobs.push((table, table_ctx, 0));
+        // generated programs that contain several pool constants
+        let (n_small, every_big, n_huge) = if thorough { (3000usize, 5usize, 6usize) } else { (60, 6, 0) };
+        let mut made = 0usize;
+        let mut tries = 0usize;
+        while made < n_small && tries < n_small * 30 {
+            tries += 1;
+            let mut prog_rng = crng.fork();
+            let limits = Limits { max_nodes: 12 + prog_rng.below(30), max_depth: 3 + prog_rng.below(4) };
+            let p = {
+                let mut g = Gen::new(&mut prog_rng, &limits);
+                c01_gen::generator::normalise(g.program())
+            };
+            let c = pool_constants(&p);
+            if c < 3 || envelope::outside_model(&p).is_some() || envelope::known_shape(&p, true).is_some() {
+                continue;
+            }
+            // pool sizes: half from the boundary windows, half placed so that the program's own
+            // constants straddle the boundary
+            let pick = |rng: &mut Rng, boundary: usize, lo: usize, hi: usize| {
+                if rng.chance(1, 2) { lo + rng.below(hi - lo + 1) } else { boundary.saturating_sub(rng.below(c + 4)) }
+            };
+            let mut ctxs = vec![Context::ConstPool(pick(&mut prog_rng, 128, 120, 135), prog_rng.chance(1, 2))];
+            if made % every_big == 0 {
+                ctxs.push(Context::ConstPool(pick(&mut prog_rng, 16384, 16370, 16400), prog_rng.chance(1, 2)));
+            }
+            if made < n_huge {
+                ctxs.push(Context::ConstPool(pick(&mut prog_rng, 2_097_152, 2_097_140, 2_097_160), prog_rng.chance(1, 2)));
+            }
+            jobs.push((p, ctxs, prog_rng.next_u64()));
+            made += 1;
+        }
+        let reqs: Vec<String> = jobs.iter().map(|(p, _, _)| request(p)).collect();
+        let resps = cx.drv.batch(&reqs);
+        let mut runs = 0usize;
+        for ((p, ctxs, style), resp) in jobs.iter().zip(resps.iter()) {
+            cx.rep.bump("origin=const-pool-family");
+            runs += ctxs.len();
+            cx.check_program(p, resp, ctxs, *style, "const-pool");
+        }
+        cx.rep.extra.insert(
+            "constant_pool_family".into(),
+            json!({"note": "programs evaluated behind a prelude of N distinct int/float/string/identifier constants; the program's own literals and the non-local identifiers emit/print/size then have constant indices around N",
+                   "pool_sizes": if thorough { "table program: every N in 120..=135 and 16370..=16400, 3 × ~2^21; generated: N around 2^7 for each, around 2^14 for every 5th, around 2^21 for 6" }
+                                 else { "table program: every N in 120..=135, 4 × N in 16370..=16400; generated: N around 2^7 for each, around 2^14 for every 6th" },
+                   "programs": jobs.len(), "runs": runs}),
+        );
+    }
+
     // 4. exhaustive small operator trees (operands observable through emit)
     {
         let max_full = 2; // all operand assignments up to this many operators
